@@ -8,7 +8,7 @@ from checks import appcommon
 # per property: directed scenarios, random profiles (quick / thorough), outcome kinds that must be
 # exercised on the unchanged tree (vacuity guard), bounded model config(s)
 TABLE = {
-    "C02": dict(evm=True, directed=["prefund_then_create", "evm_odd_addresses", "fee_edges", "evm_sweep_to_zero", "wrap_amount", "checktx_not_delivered", "evm_value", "evm_selfdestruct", "evm_nested_revert", "evm_mixed", "recreate_in_block", "genesis_twins_unbond", "twin_jail", "huge_stake", "same_block_withdraw",
+    "C02": dict(evm=True, directed=["big_powers", "prefund_then_create", "evm_odd_addresses", "fee_edges", "evm_sweep_to_zero", "wrap_amount", "checktx_not_delivered", "evm_value", "evm_selfdestruct", "evm_nested_revert", "evm_mixed", "recreate_in_block", "genesis_twins_unbond", "twin_jail", "huge_stake", "same_block_withdraw",
                           "slash_then_unstake", "no_proposer_block", "many_unbonding", "forced_unbond"],
                 quick=[dict(n=6, blocks=25), dict(n=4, blocks=20, boundary=True)],
                 thorough=[dict(n=40, blocks=40), dict(n=40, blocks=40, seed_off=50), dict(n=30, blocks=30, boundary=True),
@@ -23,27 +23,27 @@ TABLE = {
                 quick=[dict(n=8, blocks=20, maxtx=7), dict(n=3, blocks=15, boundary=True)],
                 thorough=[dict(n=50, blocks=40, maxtx=8), dict(n=40, blocks=40, maxtx=8, seed_off=11), dict(n=30, blocks=30, boundary=True)],
                 need=[("transfer", False), ("staking", False), ("unstaking", False), ("withdraw", False), ("proposal", False), ("voting", False)]),
-    "C10": dict(directed=["self_unstake_after_restart", "redistribute_same_total", "minstake_change", "restart_truncated", "valcount_change", "self_below_min", "validator_churn", "twin_jail", "forced_unbond", "slash_then_unstake", "recreate_in_block", "early_unbond"],
+    "C10": dict(directed=["big_powers", "restart_after_first_block", "self_unstake_after_restart", "redistribute_same_total", "minstake_change", "restart_truncated", "valcount_change", "self_below_min", "validator_churn", "twin_jail", "forced_unbond", "slash_then_unstake", "recreate_in_block", "early_unbond"],
                 quick=[dict(n=8, blocks=30, extra=["-prestart", "0.1"])],
                 thorough=[dict(n=60, blocks=50), dict(n=60, blocks=50, seed_off=13)],
                 need=[("staking", True), ("unstaking", True), ("absent", True)]),
-    "C11": dict(directed=["self_unstake_after_restart", "tiny_stakes_slashed", "checktx_not_delivered", "self_below_min", "recreate_in_block", "forced_unbond", "slash_then_unstake", "genesis_twins_unbond", "validator_churn", "many_unbonding"],
+    "C11": dict(directed=["big_powers", "self_unstake_after_restart", "tiny_stakes_slashed", "checktx_not_delivered", "self_below_min", "recreate_in_block", "forced_unbond", "slash_then_unstake", "genesis_twins_unbond", "validator_churn", "many_unbonding"],
                 quick=[dict(n=8, blocks=25, extra=["-prestart", "0.1"])],
                 thorough=[dict(n=60, blocks=50), dict(n=60, blocks=50, seed_off=17)],
                 need=[("staking", True), ("unstaking", True), ("evidence", True)]),
-    "C12": dict(directed=["self_unstake_after_restart", "tiny_stakes_slashed", "unbond_across_restart", "unbond_period_shortened", "checktx_not_delivered", "genesis_twins_unbond", "twin_jail", "forced_unbond", "many_unbonding", "slash_then_unstake"],
+    "C12": dict(directed=["big_powers", "self_unstake_after_restart", "tiny_stakes_slashed", "unbond_across_restart", "unbond_period_shortened", "checktx_not_delivered", "genesis_twins_unbond", "twin_jail", "forced_unbond", "many_unbonding", "slash_then_unstake"],
                 quick=[dict(n=8, blocks=30, extra=["-prestart", "0.1"])],
                 thorough=[dict(n=60, blocks=50), dict(n=60, blocks=50, seed_off=19)],
                 need=[("unstaking", True), ("unstaking", False)]),
-    "C13": dict(directed=["withdraw_without_issuance", "swap_delegators", "same_block_withdraw", "early_rewards", "early_unbond", "validator_churn", "twin_jail"],
+    "C13": dict(directed=["big_powers", "withdraw_without_issuance", "swap_delegators", "same_block_withdraw", "early_rewards", "early_unbond", "validator_churn", "twin_jail"],
                 quick=[dict(n=8, blocks=25, extra=["-prestart", "0.1"])],
                 thorough=[dict(n=60, blocks=50), dict(n=60, blocks=50, seed_off=23)],
                 need=[("withdraw", True), ("withdraw", False), ("absent", True)]),
-    "C14": dict(directed=["tiny_stakes_slashed", "tiny_voter_slashed", "evidence_burst", "slash_then_unstake", "twin_jail", "vote_window_edges"],
+    "C14": dict(directed=["big_powers", "tiny_stakes_slashed", "tiny_voter_slashed", "evidence_burst", "slash_then_unstake", "twin_jail", "vote_window_edges"],
                 quick=[dict(n=8, blocks=30, extra=["-prestart", "0.1"])],
                 thorough=[dict(n=60, blocks=50), dict(n=60, blocks=50, seed_off=29)],
                 need=[("evidence", True), ("absent", True)]),
-    "C15": dict(directed=["tiny_voter_slashed", "voter_leaves_set", "many_proposals_one_block", "evidence_after_close", "evidence_burst", "vote_window_edges", "threshold_exact", "majority_lost", "two_proposals_one_block", "price_change", "many_unbonding"],
+    "C15": dict(directed=["big_powers", "tiny_voter_slashed", "voter_leaves_set", "many_proposals_one_block", "evidence_after_close", "evidence_burst", "vote_window_edges", "threshold_exact", "majority_lost", "two_proposals_one_block", "price_change", "many_unbonding"],
                 quick=[dict(n=8, blocks=30)],
                 thorough=[dict(n=60, blocks=50), dict(n=60, blocks=60, seed_off=37)],
                 need=[("proposal", True), ("proposal", False), ("voting", True), ("voting", False)]),
